@@ -780,7 +780,8 @@ func c02h(c *Ctx) {
 							same = false
 						}
 					}
-					if same {
+					// (the parenthesised sub-expression is the one call that must NOT always pass the flag on)
+					if same && !(root == be && g == be) {
 						c.OK(key, pos, "negated flag passed on unchanged")
 						continue
 					}
